@@ -72,6 +72,10 @@ def run(chk, tier, proof_ok):
     search = adapt.usability_search(chk.seed, tier, full=not proof_ok)      # runs while the correspondence does
     divs, cov = adapt.correspondence(chk, tier)
     findings, scov = search.result()
+    lf, lst = adapt.large_magnitude_findings(chk.seed, full=(tier != 'quick') or not proof_ok)
+    for k_, (t_, c_) in lf.items():
+        findings.setdefault(k_, (t_, dict(c_, nsteps=0)))
+    scov['large_magnitude'] = lst
     if divs and tier != 'thorough' and proof_ok:
         # the correspondence broke: the full search
         more, mcov = adapt.usability_search(chk.seed + 1, tier, full=True).result()
